@@ -59,7 +59,7 @@ def strategy_case(draw: Any) -> Dict[str, Any]:
         case["mode"] = "valid"
     # decoys: files named like this run's reports (and their ezodf backups) lying in the working directory, in $HOME and in a
     # sibling of the output directory; a stale copy inside the output directory itself may be replaced, these may not be touched
-    case["decoys"] = draw(st.sampled_from(["none", "cwd", "cwd", "home", "all", "all"]))
+    case["decoys"] = draw(st.sampled_from(["none", "cwd", "home", "outdir", "outdir", "all", "all"]))
     # environment switches rp2 reads: LOG_LEVEL (documented in README.dev.md) and RP2_ENABLE_PROFILER (rp2_main)
     case["env"] = draw(st.sampled_from([{}, {}, {}, {"LOG_LEVEL": "DEBUG"}, {"RP2_ENABLE_PROFILER": "1"}, {"LOG_LEVEL": "DEBUG", "RP2_ENABLE_PROFILER": "1"}]))
     return case
@@ -127,7 +127,7 @@ def plant_decoys(case: Dict[str, Any], folder: str, outdir: str) -> Dict[str, Tu
     label = cli.method_label(case.get("method"), case.get("schedule"), case["country"])
     names = cli.expected_report_names(case["country"], label, case.get("prefix") or "")
     names += [n + ".bak" for n in names] + ["rp2_full_report.ods", "input.ods.bak"]
-    places = [folder] if mode == "cwd" else [os.path.join(folder, "home")] if mode == "home" else [folder, os.path.join(folder, "home"), os.path.join(folder, "out_sibling")]
+    places = [folder] if mode == "cwd" else [os.path.join(folder, "home")] if mode == "home" else [] if mode == "outdir" else [folder, os.path.join(folder, "home"), os.path.join(folder, "out_sibling")]
     planted: Dict[str, Tuple[str, int]] = {}
     for place in places:
         os.makedirs(place, exist_ok=True)
@@ -137,11 +137,19 @@ def plant_decoys(case: Dict[str, Any], folder: str, outdir: str) -> Dict[str, Tu
                 handle.write(b"PK\x03\x04 decoy " + name.encode() + b"\n")
             os.utime(path, ns=(1_600_000_000_000_000_000, 1_600_000_000_000_000_000))
             planted[path] = (_sha(path) or "", os.stat(path).st_mtime_ns)
-    if mode == "all":
-        # a stale report inside the output directory as well: replacing that one is legitimate
+    if mode in ("all", "outdir"):
+        # a stale report inside the output directory as well: replacing that one is legitimate ...
         os.makedirs(outdir, exist_ok=True)
         with open(os.path.join(outdir, names[0]), "wb") as handle:
             handle.write(b"stale")
+        # ... but whatever else lies there is not rp2's to touch: somebody else's reports (other prefix), a spreadsheet of the
+        # user's own, a copy of the input
+        for name in ("alice_" + names[0], "my_notes_2023.ods", "input_copy.ods", "crypto_data.csv"):
+            path = os.path.join(outdir, name)
+            with open(path, "wb") as handle:
+                handle.write(b"PK\x03\x04 not a report of this run " + name.encode() + b"\n")
+            os.utime(path, ns=(1_600_000_000_000_000_000, 1_600_000_000_000_000_000))
+            planted[path] = (_sha(path) or "", os.stat(path).st_mtime_ns)
     return planted
 
 
@@ -199,7 +207,7 @@ def evaluate(case: Dict[str, Any]) -> Outcome:
         if case["mode"] == "valid" and result.rc == 0 and os.path.isdir(outdir):
             label_ = cli.method_label(case.get("method"), case.get("schedule"), case["country"])
             expected_names = set(cli.expected_report_names(case["country"], label_, case.get("prefix") or ""))
-            extra_files = sorted(set(os.listdir(outdir)) - expected_names)
+            extra_files = sorted(set(os.listdir(outdir)) - expected_names - {os.path.basename(p) for p in planted if os.path.dirname(p) == outdir})
             if extra_files:
                 out.fail("unexpected_file_in_output_directory", f"{label}: besides its reports {sorted(expected_names)} the run left {extra_files} in the output directory")
                 return out
